@@ -74,7 +74,11 @@ def translate(repo):
     items.append(typed("register_before_send", "bool", coq_bool(
         ar_[0] == "seq = self._get_seq_id()" and ar_[1] == "self._request_callbacks[seq] = callback" and ar_[2].startswith("try:\n    self._send(consts.MSG_REQUEST, seq,"))))
     gs = [u(x) for x in strip_doc(find_func(cls, "_get_seq_id").body)]
-    items.append(typed("seq_is_atomic_counter", "bool", coq_bool(gs == ["return next(self._seqcounter)"] and "self._seqcounter = itertools.count()" in u(find_func(cls, "__init__")))))
+    # exactly one assignment to the counter in the whole class, unconditional, in __init__, of exactly this form
+    initf = find_func(cls, "__init__")
+    assigns = [(f.name, u(st.value), st in f.body) for f in cls.body if isinstance(f, ast.FunctionDef) for st in ast.walk(f)
+               if isinstance(st, (ast.Assign, ast.AugAssign)) and any(u(t) == "self._seqcounter" for t in (st.targets if isinstance(st, ast.Assign) else [st.target]))]
+    items.append(typed("seq_is_atomic_counter", "bool", coq_bool(gs == ["return next(self._seqcounter)"] and assigns == [("__init__", "itertools.count()", True)])))
     items.append(shape("AsyncResult.wait", func_shape(find_func(ar, "wait"))))
     items.append(shape("AsyncResult.__call__", func_shape(find_func(ar, "__call__"))))
     htree = parse(repo, "rpyc/utils/helpers.py")
